@@ -346,6 +346,7 @@ def fp_only(ctx, dis):
         ctx.count("fp3-iter:%s" % fc.VARIANTS[v])
     res = fc.run_cases(ctx, cases)
     for c in cases:
+        fc.oracle_cache_independent(ctx, c, res[c.cid])
         dd = fc.compare_case(c, res[c.cid])
         if dd:
             dis.append(dict(case=c.replay(), detail=dd[:3], sig=dict(kind="fp", stage="correspondence", dt=3, variant=fc.VARIANTS[c.v])))
@@ -465,6 +466,10 @@ def run(ctx):
     ctx.assumptions += ["exact-arithmetic model; float accumulation over hundreds of steps handled by a relative tolerance (2e-4 of the moment scale)",
                         "the link 'RF kick and drift transport second moments as the recurrence says' is checked on the implementation only (no theorem yet)",
                         "4-point stencil with damping: compared with the 3-point recurrence within 4 % (switch-row defect, C01.5)"]
+    narrow_ok = all(k in ctx.extra.get("worst_relative_moment_error", {}) for k in ("e0", "e8"))
+    lim = ctx.extra.get("limit_spread_over_starts") or []
+    coq = fc.fploop_downgrade(ctx, coq, dis, narrow_ok and len(lim) >= 4,
+                              "fp3-iter grids, cache-independence probe, narrow-start evolutions wired as main(), relaxation runs from zoom 0.2 ... 1.5")
     conclude(ctx, coq, dis)
 
 
